@@ -144,6 +144,8 @@ func init() {
 				Old: "func (j *JoinedCollider) RayCollisions(r *Ray, f func(RayCollision)) int {\n", New: "func (j *JoinedCollider) RayCollisions(r *Ray, f func(RayCollision)) int {\n\tj.colliders = j.colliders[:len(j.colliders):len(j.colliders)]\n", Rule: "Q", Expect: "JoinedCollider"},
 			{Name: "ray parameter scaled like a length (defect F4)", File: "model3d/transform.go",
 				Old: "Scale:  rc.Scale,", New: "Scale:  t.t.ApplyDistance(rc.Scale),", Rule: "UNIT", Expect: "outerCollision"},
+			{Name: "sampling step multiplied by the direction length", File: "model3d/collisions.go",
+				Old: "\tfracStep := s.Epsilon / r.Direction.Norm()\n\tstartInside := s.Solid.Contains(r.Origin)", New: "\tfracStep := s.Epsilon * r.Direction.Norm()\n\tstartInside := s.Solid.Contains(r.Origin)", Rule: "UNIT", Expect: "FirstRayCollision"},
 			{Name: "2D JoinedCollider keeps the farthest hit", File: "model2d/collisions.go",
 				Old: "collision.Scale < closest.Scale || !anyCollides", New: "collision.Scale > closest.Scale || !anyCollides", Rule: "AM", Expect: "JoinedCollider"},
 			{Name: "Capsule reports two, returns count 1", File: "model3d/shapes.go",
